@@ -329,6 +329,7 @@ type nodeSim struct {
 	serialNo   int
 
 	retryEvery time.Duration
+	noReportJudge bool
 	dst        *dtlsrState
 	pst        *prophetState
 	vecSeq     int
@@ -1171,7 +1172,8 @@ func (n *nodeSim) isRetained(tr *btrack) bool {
 }
 
 func simWorkerHarnesses() []*simk.Harness {
-	return []*simk.Harness{{Name: "node", Gen: genNodeCase, Run: runNodeCase}, {Name: "store", Gen: genStoreCase, Run: runStoreCase}}
+	return []*simk.Harness{{Name: "node", Gen: genNodeCase, Run: runNodeCase}, {Name: "store", Gen: genStoreCase, Run: runStoreCase},
+		{Name: "local", Gen: genLocalCase, Run: runLocalCase}}
 }
 
 func TestSimWorker(t *testing.T) {
